@@ -25,6 +25,7 @@ pub mod lexrep;
 pub mod loc;
 pub mod textcodec;
 pub mod clone;
+pub mod total;
 
 // ------------------------------------------------------------------ PRNG (splitmix64)
 #[derive(Clone)]
